@@ -6,7 +6,7 @@ integers as integers, numeric values only MOVED, never computed with, hence `K` 
     `kmax` is kept as `hi = kmax + 1` (so `while (kmin <= kmax)` reads `lo < hi`, `lsub[kmax]` reads
     `lsub[hi-1]`); the search loop `for (krow ...) if (lsub[krow] == pivrow) { do_prune = TRUE; break; }`
     (lines 99-105) is `List.any`.  The partition loop (lines 117-149) runs on fuel `hi - lo`
-    (`SluProofs.Props.C03.pruneL_cut` proves the fuel is never what stops it).
+    (`Slu.SymbArr.pruneL_partition_terminates` in SluProofs/Props/C03.lean: the fuel is never what stops it).
 (b) `copyToUcol`  mirrors SRC/dcopy_to_ucol.c:69-108.  The growth request `while (new_next > nzumax)`
     (lines 85-93) is NOT modelled: the model writes `usub[nextu]`/`ucol[nextu]` into arrays that are long
     enough (hypothesis `capacity suffices`; the growth branch belongs to C07/C08).
